@@ -37,7 +37,7 @@ func init() {
 		MinEvals:        floor(150000, 4000000),
 		MinDistinct:     floor(20000, 500000),
 		RequiredCells: func(string) []string {
-			cells := []string{"purity/policy-match/history", "purity/policy-match/concurrent", "grid", "grid/int-vs-int", "grid/float-vs-float", "grid/int-vs-float", "grid/float-vs-int", "grid/both-beyond-2^53", "a/true", "a/false", "a/map-literal-reordered", "a/link-same-hash-other-codec", "a/float-opposite-huge", "b/and", "b/or", "b/all", "b/any", "c/and", "c/all", "d", "e", "f/missing-required", "f/missing-optional", "data/nan-inf", "data/empty-collections", "via/constructors", "via/ipld"}
+			cells := []string{"purity/policy-match/history", "purity/policy-match/concurrent", "grid", "grid/int-vs-int", "grid/float-vs-float", "grid/int-vs-float", "grid/float-vs-int", "grid/both-beyond-2^53", "a/true", "a/false", "a/map-literal-reordered", "a/link-same-hash-other-codec", "a/float-opposite-huge", "b/and", "b/or", "b/all", "b/any", "c/and", "c/all", "d", "e", "f/missing-required", "f/missing-optional", "data/nan-inf", "data/empty-collections", "via/constructors", "via/ipld", "via/dagjson"}
 			for _, k := range ref.AllKinds {
 				cells = append(cells, "a/kind/"+k)
 			}
@@ -211,6 +211,7 @@ type c11Pol struct {
 	ast  ref.Policy
 	cons policy.Policy
 	ipld policy.Policy
+	json policy.Policy // read from DAG-JSON text (nil: not representable there)
 }
 
 func c11Build(w *mon.W, p ref.Policy) (*c11Pol, bool) {
@@ -224,7 +225,19 @@ func c11Build(w *mon.W, p ref.Policy) (*c11Pol, bool) {
 		w.Inconclusive("C11 policy could not be read from IPLD: " + err.Error() + " " + p.String())
 		return nil, false
 	}
-	return &c11Pol{ast: p, cons: c, ipld: i}, true
+	out := &c11Pol{ast: p, cons: c, ipld: i}
+	// the same policy written as DAG-JSON text by the harness and read with FromDagJson (bytes
+	// and links take their {"/": ...} forms there)
+	// (the dependency's DAG-JSON writer prints an integral-valued float without a decimal point -
+	// known finding K3 -, so such policies have no faithful text form here and are left out)
+	if txt, err := ref.EncodeDagJson(p.ToV()); err == nil && !hasIntegralFloat(p.ToV()) {
+		if j, err := policy.FromDagJson(string(txt)); err == nil {
+			out.json = j
+		} else {
+			w.Count("policy-not-readable-from-dagjson", 1)
+		}
+	}
+	return out, true
 }
 
 type mres struct{ match, partial bool }
@@ -272,10 +285,14 @@ var c11Poisons = func() []c11Poison {
 func c11Match(w *mon.W, p *c11Pol, n datamodel.Node, via int) (mres, bool) {
 	var out mres
 	pol := p.cons
-	if via%2 == 1 {
+	switch {
+	case via%3 == 2 && p.json != nil:
+		pol = p.json
+		w.Cover("via/dagjson")
+	case via%2 == 1:
 		pol = p.ipld
 		w.Cover("via/ipld")
-	} else {
+	default:
 		w.Cover("via/constructors")
 	}
 	// every third judged match is preceded by a hostile one (lists holding integers above
@@ -1047,4 +1064,25 @@ func c11DeepNesting(w *mon.W) {
 			}
 		}
 	}
+}
+
+// hasIntegralFloat: a float without fractional part somewhere in the value.
+func hasIntegralFloat(v ref.V) bool {
+	switch v.K {
+	case ref.KFloat:
+		return !math.IsInf(v.F, 0) && !math.IsNaN(v.F) && v.F == math.Trunc(v.F)
+	case ref.KList:
+		for _, e := range v.L {
+			if hasIntegralFloat(e) {
+				return true
+			}
+		}
+	case ref.KMap:
+		for _, e := range v.M {
+			if hasIntegralFloat(e.V) {
+				return true
+			}
+		}
+	}
+	return false
 }
